@@ -202,6 +202,20 @@ def frac_mat(a):
 
 
 def check_state(ctx, case, obj, view, upto, exact, after="window-change"):
+    try:
+        return _check_state(ctx, case, obj, view, upto, exact, after)
+    except Exception as e:  # noqa  (an exception of the implementation, not of the harness)
+        import traceback
+        tb = traceback.extract_tb(e.__traceback__)
+        if not any("pyunicorn" in f.filename for f in tb):
+            raise
+        ctx.fail({"class": case["cls"], "method": "query", "kind": "exception", "after": after,
+                  "error": type(e).__name__},
+                 f"a query raised {type(e).__name__}: {e}", dict(case, ops=case["ops"][:upto]))
+        return False
+
+
+def _check_state(ctx, case, obj, view, upto, exact, after):
     """all clauses of the property on the object's current state; `view` is
     the expected view (exact), `upto` the number of operations executed."""
     cls = case["cls"]
@@ -250,7 +264,8 @@ def check_state(ctx, case, obj, view, upto, exact, after="window-change"):
         ok = bad("phase_mean", "shape", f"phase_mean() shape {pm.shape}, expected {(c, Nn)}")
     if an.shape != (Tn, Nn):
         return bad("anomaly", "shape",
-                   f"anomaly() shape {an.shape} next to observable() shape {obs.shape}")
+                   f"anomaly() shape {an.shape}, expected {(Tn, Nn)} "
+                   f"(observable() shape {obs.shape})")
     if pi.shape != (c, Tn // c):
         ok = bad("phase_indices", "shape", f"phase_indices() shape {pi.shape}, expected {(c, Tn // c)}")
     else:
@@ -308,15 +323,46 @@ def check_state(ctx, case, obj, view, upto, exact, after="window-change"):
     return ok
 
 
+def check_selection(ctx, case, obj, view, tok, out, upto):
+    """indices_selected_phases / anomaly_selected_months against their definition:
+    the sorted indices of the selected phases within the complete years"""
+    c, Tn = case["c"], len(view["time"])
+    sel = [int(x) for x in tok[3:].split(",")] if tok[3:] != "-" else []
+    if tok.startswith("am=") and c == 360:
+        sel = [m * 30 + d for m in sel for d in range(30)]
+    exp = sorted(p + y * c for p in sel for y in range(Tn // c))
+    if tok.startswith("sp="):
+        got = [int(x) for x in out.split(",")] if out != "-" else []
+        good = got == exp
+    else:
+        with quiet():
+            an = np.asarray(obj.anomaly())
+        if an.shape[0] != Tn:
+            return      # inconsistent state: reported by check_state
+        good = out == enc_mat(an[exp, :] if exp else an[:0, :])
+    if not good:
+        ctx.fail({"class": case["cls"], "method": "indices_selected_phases" if tok[:2] == "sp"
+                  else "anomaly_selected_months", "kind": "value"},
+                 f"{tok}: result is not the selection of the complete-year indices {exp}",
+                 dict(case, ops=case["ops"][:upto], observed=out[:300]))
+
+
 def twin_check(ctx, case, obj, w, upto):
     """a fresh object constructed directly with the current window must show
     the same derived series (detects results that did not follow a window change)"""
-    with quiet():
-        twin = make_obj(case, window=w)
-        pairs = [("observable", obj.observable(), twin.observable())]
-        if case["cls"] == "ClimateData":
-            pairs += [("phase_mean", obj.phase_mean(), twin.phase_mean()),
-                      ("anomaly", obj.anomaly(), twin.anomaly())]
+    try:
+        with quiet():
+            twin = make_obj(case, window=w)
+            pairs = [("observable", obj.observable(), twin.observable())]
+            if case["cls"] == "ClimateData":
+                pairs += [("phase_mean", obj.phase_mean(), twin.phase_mean()),
+                          ("anomaly", obj.anomaly(), twin.anomaly())]
+    except Exception as e:  # noqa
+        ctx.fail({"class": case["cls"], "method": "__init__", "kind": "twin-raise",
+                  "error": type(e).__name__},
+                 f"a fresh object with the object's current window raised {type(e).__name__}: {e}",
+                 dict(case, ops=case["ops"][:upto], window=w))
+        return False
     for nm, a, b in pairs:
         a, b = np.asarray(a), np.asarray(b)
         if a.shape != b.shape or not np.array_equal(a, b, equal_nan=True):
@@ -355,6 +401,8 @@ def run_case(ctx, case, exact, oracle=True):
         outs.append(out)
         if not oracle:
             continue
+        if tok.startswith(("sp=", "am=")) and not out.startswith("raise:"):
+            check_selection(ctx, case, obj, view, tok, out, n + 1)
         changed, after = False, "cache_clear"
         if tok == "G" or tok.startswith("W="):
             w = GLOBAL if tok == "G" else win_of_token(tok)
@@ -369,6 +417,7 @@ def run_case(ctx, case, exact, oracle=True):
                 if out != "ok":
                     ctx.fail({"class": case["cls"], "method": "set_window", "kind": "raise"},
                              f"non-empty window rejected: {out}", dict(case, ops=case["ops"][:n + 1]))
+                    continue
                 view, cur_w = nv, (None if tok == "G" else w)
                 after = "set_global_window" if tok == "G" else "set_window"
             changed = True
@@ -435,6 +484,8 @@ def gen_case(ctx, rng, exact, quick):
         T = max(T, rng.choice([12, 13, 24, 25, 30]))
     else:
         c = rng.choice([1, 2, 3, 4, 5, 6, 7, 8, 9, 10, 11, 12, 13])
+        if c > T and rng.random() < 0.7:
+            c = rng.randrange(1, T + 1)
     tstep = rng.choice([0.25, 0.5, 1.0, 1.5])
     t0 = rng.choice([0.0, 0.0, -3.0, 10.5, 1948.0])
     time, t = [], t0
@@ -456,11 +507,28 @@ def gen_case(ctx, rng, exact, quick):
     flag = 1 if (cls == "ClimateData" and rng.random() < 0.3) else 0
 
     def gen_window():
-        if rng.random() < 0.08:
+        r = rng.random()
+        if r < 0.08:
             return dict(GLOBAL), ("global",) * 3
         a, b, k1 = gen_bounds(rng, time, tstep)
         c1, d1, k2 = gen_bounds(rng, lat, 1.25)
         e1, f1, k3 = gen_bounds(rng, lon, 1.25)
+        if r < 0.6:
+            # anchored: a box around one existing node and one time stamp
+            # (mostly non-empty; bounds on / next to samples)
+            j = rng.randrange(N)
+            ex = [0.0, 0.0, 1.25, 2.5, 22.5, 45.0]
+            c1, d1 = lat[j] - rng.choice(ex), lat[j] + rng.choice(ex)
+            e1, f1 = lon[j] - rng.choice(ex), lon[j] + rng.choice(ex)
+            i0, i1 = sorted((rng.randrange(T), rng.randrange(T)))
+            a, b = time[i0] - rng.choice([0, 0, tstep / 2]), time[i1] + rng.choice([0, 0, tstep / 2])
+            k1 = k2 = k3 = "anchored"
+            if a == b:
+                k1 = "degenerate"
+            if c1 == d1:
+                k2 = "degenerate"
+            if e1 == f1:
+                k3 = "degenerate"
         return dict(zip(WKEYS, (a, b, c1, d1, e1, f1))), (k1, k2, k3)
 
     init = "G"
@@ -563,9 +631,14 @@ def run(ctx):
         "behaviour, DESIGN section 9)",
     ]
     ctx.proofs()
+    if not quick:
+        rc, out = common._run(["lake", "env", "leanchecker", "Pyunicorn.Properties.C13"],
+                              cwd=common.LEAN, timeout=1800)
+        ctx.obligation("leanchecker replays Pyunicorn.Properties.C13 through the kernel",
+                       "lean-kernel", rc == 0, out[-600:])
 
-    n_exact = 330 if quick else 3600
-    n_dyadic = 70 if quick else 1400
+    n_exact = 1200 if quick else 12000
+    n_dyadic = 300 if quick else 3000
     cases = [(c, True) for c in edge_cases()]
     cases += [(gen_case(ctx, rng, True, quick), True) for _ in range(n_exact)]
     cases += [(gen_case(ctx, rng, False, quick), False) for _ in range(n_dyadic)]
@@ -573,15 +646,23 @@ def run(ctx):
     reqs, impl, exacts = [], [], []
     for case, exact in cases:
         reqs.append(request_of(case))
+        nfail = len(ctx.failures)
         impl.append(run_case(ctx, case, exact, oracle=True))
+        if len(ctx.failures) > nfail and ctx.extra.get("shrunk", 0) < 12:
+            shrink_failures(ctx, case, exact, nfail)
         exacts.append(exact)
         full = len(case["time"]) * len(case["lat"])
         nontriv = False
         for tok in case["ops"]:
             if tok.startswith("W="):
                 v = expected_view(case, win_of_token(tok))
-                if v is not None and 0 < len(v["time"]) * len(v["lat"]) < full:
+                if v is None:
+                    ctx.count("selection:empty(rejected)")
+                elif len(v["time"]) * len(v["lat"]) < full:
                     nontriv = True
+                    ctx.count("selection:proper-subset")
+                else:
+                    ctx.count("selection:everything")
         ctx.case(reqs[-1], nontriv,
                  {"request": reqs[-1][:400]} if len(reqs[-1]) < 400 else None)
         ctx.count("stream:" + ("exact-integer" if exact else "dyadic-tolerance"))
@@ -608,6 +689,46 @@ def run(ctx):
         "\n".join(f"{reqs[i][:300]} :: {first_diff(i)}" for i in bad[:5]))
     ctx.extra["requests_compared"] = len(reqs)
     ctx.extra["operations_compared"] = sum(len(c["ops"]) + 1 for c, _ in cases)
+
+
+class _Probe:
+    """stand-in context used while shrinking"""
+    def __init__(self):
+        self.sigs = []
+
+    def fail(self, signature, what, replay):
+        self.sigs.append(common._canon(signature))
+        return "new"
+
+
+def shrink_failures(ctx, case, exact, nfail):
+    """delta-debug the history of the first new failure (same signature must persist)"""
+    target = common._canon(ctx.failures[nfail]["signature"])
+
+    def still(ops):
+        pr = _Probe()
+        try:
+            run_case(pr, dict(case, ops=list(ops)), exact, oracle=True)
+        except Exception:  # noqa
+            return False
+        return target in pr.sigs
+
+    ops = common.shrink_list(case["ops"], still)
+    pr = []
+
+    class Rec(_Probe):
+        def fail(self, signature, what, replay):
+            if common._canon(signature) == target:
+                pr.append((signature, what, replay))
+            return "new"
+    run_case(Rec(), dict(case, ops=ops), exact, oracle=True)
+    if pr:
+        sig, what, rp = pr[0]
+        for f in ctx.failures[nfail:]:
+            if common._canon(f["signature"]) == target:
+                f["what"], f["replay"] = what, dict(rp, shrunk_from_ops=len(case["ops"]))
+                break
+    ctx.extra["shrunk"] = ctx.extra.get("shrunk", 0) + 1
 
 
 def replay(ctx, rp):
